@@ -72,11 +72,17 @@ def _tqdm(iterable=None, *args, **kwargs):
     hook = tqdm_hook[0]
     if hook is None:
         return iterable
+    try:
+        total = len(iterable)
+    except TypeError:
+        total = -1
+    hook('task', kwargs.get('position'), total)
 
     def gen():
         for index, item in enumerate(iterable):
-            hook(index)
+            hook('item', index, None)
             yield item
+        hook('end', None, None)
     return gen()
 
 
